@@ -74,6 +74,8 @@ impl FeoxStore {
                 return Err(FeoxError::KeyNotFound);
             }
         };
+        #[cfg(feoxdb_verif)]
+        crate::verif::seam_after_entry_release();
 
         if !self.memory_only {
             if self.enable_caching {
@@ -153,6 +155,8 @@ impl FeoxStore {
                 return Err(FeoxError::KeyNotFound);
             }
         };
+        #[cfg(feoxdb_verif)]
+        crate::verif::seam_after_entry_release();
 
         if !self.memory_only {
             if self.enable_caching {
